@@ -1436,10 +1436,80 @@ def propagation(repo, tier):
                 out.append((fr, n, ident, name))
         return out
 
+    qual_of = {}
+
     def verdict(frames):
         """("ok" | "bad" | "unknown", reason) for an error raised by the innermost call of `frames`."""
         line0 = frames[-1][2].lineno
+        if not qual_of:
+            for f_, q_, node_ in pkg.all_functions():
+                qual_of[id(node_)] = q_
         for (f, fnode, call) in reversed(frames):
+            v = frame_verdict(f, fnode, call, line0, 0)
+            if v is not None:
+                return v
+        return "ok", ""
+
+    def manager_swallows(f, fnode, n, it, line0, depth):
+        """Round 6: what the context manager of an enclosing `with` does to the error.  A manager defined in the package is
+        read: a generator under `contextmanager` is judged at its `yield` (the handlers / finally around it, like any frame);
+        a class through the values its `__exit__` returns (only constant false / None everywhere = does not swallow).
+        None = nothing to report (not a package manager: as before), else ("bad" | "unknown", reason)."""
+        ce = it.context_expr
+        q = qual_of.get(id(fnode))
+        if not isinstance(ce, ast.Call) or q is None or depth > 3:
+            return None
+        try:
+            r = pkg.resolve_call(f, q, ce)
+        except Exception:  # noqa -- not resolvable: not a package manager
+            r = None
+        if not r:
+            return None
+        what = f"{f}:{n.lineno}: context manager `{ast.unparse(ce.func)[:40]}`"
+        cref = r[1] if r[0] == "class" else None
+        if r[0] == "fn":
+            g = pkg.fn(r[1])
+            if g is None:
+                return None
+            decos = [(pkg.canonical(r[1][0], d.func if isinstance(d, ast.Call) else d) or "").split(".")[-1] for d in g.decorator_list]
+            if any(d in ("contextmanager", "asynccontextmanager") for d in decos):
+                for y in own_nodes(g):
+                    if isinstance(y, (ast.Yield, ast.YieldFrom)):
+                        v = frame_verdict(r[1][0], g, y, line0, depth + 1)
+                        if v is not None:
+                            return v[0], f"{what}: {v[1]}"
+                return None
+            if g.decorator_list:
+                return "unknown", f"{what} is a decorated function: what it does to the zip-bomb error raised at line {line0} is not read"
+            rets = [x.value for x in own_nodes(g) if isinstance(x, ast.Return) and x.value is not None]
+            if len(rets) == 1 and isinstance(rets[0], ast.Call):
+                try:
+                    r2 = pkg.resolve_call(r[1][0], r[1][1], rets[0])
+                except Exception:  # noqa
+                    r2 = None
+                if r2 and r2[0] == "class":
+                    cref = r2[1]
+            if cref is None:
+                return None
+        ex = pkg.mro_lookup(cref, "__exit__") if cref is not None else None
+        xf = pkg.fn(ex) if ex else None
+        if xf is None:
+            return None
+        kinds = []
+        for x in own_nodes(xf):
+            if isinstance(x, ast.Return):
+                v = x.value
+                kinds.append("no" if v is None or (isinstance(v, ast.Constant) and not v.value) else
+                             "yes" if isinstance(v, ast.Constant) else "maybe")
+        if all(k == "no" for k in kinds):
+            return None
+        if kinds == ["yes"] and isinstance(xf.body[-1], ast.Return):
+            return "bad", f"{what}: `__exit__` ({ex[0]}:{xf.lineno}) returns a true value, which swallows the zip-bomb error raised at line {line0}"
+        return "unknown", f"{what}: `__exit__` ({ex[0]}:{xf.lineno}) may return a true value and swallow the zip-bomb error raised at line {line0}"
+
+    def frame_verdict(f, fnode, call, line0, depth):
+        """None (the error leaves this frame as it is) or ("bad" | "unknown", reason)."""
+        if True:
             path = _path_to(fnode, call)
             chain = path + [call]
             for i in range(len(path) - 1, -1, -1):
@@ -1453,6 +1523,13 @@ def propagation(repo, tier):
                                 return "bad", f"{f}:{n.lineno}: `with {ast.unparse(ce)[:50]}` swallows the zip-bomb error raised at line {line0}"
                             if "maybe" in ks:
                                 return "unknown", f"{f}:{n.lineno}: `with {ast.unparse(ce)[:50]}` may swallow the zip-bomb error raised at line {line0}"
+                            continue
+                        try:
+                            k = manager_swallows(f, fnode, n, it, line0, depth)
+                        except Exception as e:  # noqa -- a shape the reading does not handle is not a verdict
+                            k = ("unknown", f"{f}:{n.lineno}: context manager not read ({type(e).__name__})")
+                        if k is not None:
+                            return k
                 if not isinstance(n, ast.Try):
                     continue
                 in_body = any(nxt is b for b in n.body)
@@ -1474,7 +1551,7 @@ def propagation(repo, tier):
                 if any(isinstance(x, (ast.Return, ast.Break, ast.Continue)) for b in n.finalbody for x in ast.walk(b)
                        if not isinstance(x, (ast.FunctionDef, ast.Lambda))) and (in_body or not any(nxt is b for b in n.finalbody)):
                     return "bad", f"{f}:{n.lineno}: `finally` leaves by return/break/continue, which discards the zip-bomb error raised at line {line0}"
-        return "ok", ""
+        return None
 
     fn_sites = {}
     for f, q, node in pkg.all_functions():
